@@ -289,10 +289,16 @@ impl<'a> Client<'a> {
         for s in 0..self.cfg.shards {
             let g = self.store.get_store(s);
             for (id, t) in g.iter() {
-                if (*id as usize) % self.cfg.shards != s || t.get_track_id() != *id {
+                if t.get_track_id() != *id {
                     misplaced = Some(*id);
                 }
                 m.insert(*id, snap(t, &self.notif));
+            }
+        }
+        // every stored track must be found where the store itself looks for its id
+        for id in m.keys() {
+            if !self.store.get_store(*id as usize).contains_key(id) {
+                misplaced = Some(*id);
             }
         }
         if let Some(id) = misplaced {
@@ -824,14 +830,16 @@ impl<'a> Client<'a> {
                 });
             }
             Op::Stats => {
-                let r = Ret::Stats(self.store.shard_stats());
-                self.step_model(kind, &r, &|_| false, &|c, cfg| {
-                    let mut v = vec![0usize; cfg.shards];
-                    for id in c.tracks.keys() {
-                        v[(*id as usize) % cfg.shards] += 1;
-                    }
-                    Ret::Stats(v)
-                });
+                // "per-shard counts sum to the number of stored tracks", and each count is
+                // what that shard holds right now; HOW ids map to shards is read off the
+                // store (get_store), not assumed
+                let stats = self.store.shard_stats();
+                let held: Vec<usize> = (0..self.cfg.shards).map(|s| self.store.get_store(s).len()).collect();
+                if stats != held {
+                    self.fail("stats", kind, "per-shard", format!("shard_stats {:?}, shards hold {:?}", stats, held), false);
+                }
+                let r = Ret::Stats(vec![stats.iter().sum()]);
+                self.step_model(kind, &r, &|_| false, &|c, _| Ret::Stats(vec![c.tracks.len()]));
             }
             Op::ForeignIssue { slot, cands, class, only_baked } => {
                 if self.qrys[*slot].is_some() {
